@@ -8,6 +8,20 @@
    the code as translated.  A source change that alters behaviour (a threshold, which estimate supplies the parametrisation, a
    dropped loop iteration, a swapped branch, an estimator class) breaks these proofs.
 
+   Third part (depolarising-noise constructors), regenerated from
+     quara/objects/gate.py : get_depolarizing_channel
+     quara/simulation/depolarized_qoperation_generation_setting.py : DepolarizedQOperationGenerationSetting.{__init__, generate_state,
+         generate_povm, generate_gate, generate_mprocess}
+     quara/objects/qoperation_typical.py : generate_qoperation_depolarized (specialised to each mode string)
+   The translated constructors accept exactly the rates 0 <= p <= 1 and return exactly the model's composition (Model/C15_Depol.v:
+   depol_state / depol_povm / depol_gate / depol_mprocess - the noise channel on the side the theorems of Props/C15.v are about),
+   hence the stated mixture.  A change of the composition side, of the diagonal of the noise matrix or of the rate guard breaks these proofs.
+
+   Fourth part (spawn structure of the flow entry point), regenerated from
+     quara/simulation/standard_qtomography_simulation_flow.py : execute_simulation_test_setting_unit
+   Sample i is handed exactly the i-th spawned child of SeedSequence(seed_qoperation) - the stream the model's qop_key names - and the
+   returned list is the concatenation of the samples' results in sample order (the model's flow_spec), for any sample count.
+
    Second part (stream dataflow), regenerated from
      quara/utils/number_util.py : to_stream
      quara/protocol/qtomography/standard/standard_{qst,povmt,qpt,qmpt}.py : generate_empi_dists_sequence
@@ -18,8 +32,9 @@
    model (Model/C15_Dataflow.single_keys), hence pairwise distinct positions of ONE stream (C15_single_keys_distinct). *)
 From Coq Require Import List Arith Bool Lia ZArith.
 From QV.Core Require Import OF.
-From QV.Model Require Import C15_Dataflow C15_PhysCheck C15_PySem.
-From QV.Proofs Require Import C15_Dataflow C15_PhysCheck C15_PySem.
+From QV.Core Require Import Sums Mat.
+From QV.Model Require Import QObj C15_Dataflow C15_PhysCheck C15_PySem C15_Depol.
+From QV.Proofs Require Import C15_Dataflow C15_PhysCheck C15_PySem C15_Depol.
 From QVGen Require Import Gen_c15_physcheck.
 Import ListNotations.
 
@@ -124,6 +139,75 @@ Print Assumptions gen_is_eq_constraint_satisfied_all_eq.
 Print Assumptions gen_execute_physicality_violation_check_eq.
 Print Assumptions gen_check_fails_iff.
 
+(* ==================================================================== depolarising-noise constructors *)
+Section DepolEquiv.
+Context (F : OF).
+
+Theorem gen_get_depolarizing_channel_eq : forall p n,
+  gen_get_depolarizing_channel F p n = if rate_ok F p then Some (depol_hs F p) else None.
+Proof. intros p n. unfold gen_get_depolarizing_channel, py_chain_le, rate_ok.
+  destruct (kleb F (c0 F) p && kleb F p (c1 F))%bool; reflexivity. Qed.
+
+Theorem gen_DepolarizedSetting_init_eq : forall p, gen_DepolarizedSetting_init F p = if rate_ok F p then Some tt else None.
+Proof. intros p. unfold gen_DepolarizedSetting_init, py_chain_le, rate_ok.
+  destruct (kleb F (c0 F) p && kleb F p (c1 F))%bool; reflexivity. Qed.
+
+(* the generation setting: a constructed setting (rate accepted) generates exactly the model's composition *)
+Theorem gen_DepolarizedSetting_generate_state_eq : forall p v n,
+  gen_DepolarizedSetting_generate_state F p v n = if rate_ok F p then Some (depol_state F n p v) else None.
+Proof. intros. unfold gen_DepolarizedSetting_generate_state. rewrite gen_get_depolarizing_channel_eq. destruct (rate_ok F p); reflexivity. Qed.
+Theorem gen_DepolarizedSetting_generate_povm_eq : forall p vs n,
+  gen_DepolarizedSetting_generate_povm F p vs n = if rate_ok F p then Some (depol_povm F n p vs) else None.
+Proof. intros. unfold gen_DepolarizedSetting_generate_povm. rewrite gen_get_depolarizing_channel_eq. destruct (rate_ok F p); reflexivity. Qed.
+Theorem gen_DepolarizedSetting_generate_gate_eq : forall p HS n,
+  gen_DepolarizedSetting_generate_gate F p HS n = if rate_ok F p then Some (depol_gate F n p HS) else None.
+Proof. intros. unfold gen_DepolarizedSetting_generate_gate. rewrite gen_get_depolarizing_channel_eq. destruct (rate_ok F p); reflexivity. Qed.
+Theorem gen_DepolarizedSetting_generate_mprocess_eq : forall p HSs n,
+  gen_DepolarizedSetting_generate_mprocess F p HSs n = if rate_ok F p then Some (depol_mprocess F n p HSs) else None.
+Proof. intros. unfold gen_DepolarizedSetting_generate_mprocess. rewrite gen_get_depolarizing_channel_eq. destruct (rate_ok F p); reflexivity. Qed.
+
+(* qoperation_typical.generate_qoperation_depolarized, one theorem per mode string; any other string raises *)
+Theorem gen_generate_qoperation_depolarized_state_eq : forall n p v,
+  gen_generate_qoperation_depolarized_state F n p v = if rate_ok F p then Some (depol_state F n p v) else None.
+Proof. intros. unfold gen_generate_qoperation_depolarized_state. rewrite gen_get_depolarizing_channel_eq. destruct (rate_ok F p); reflexivity. Qed.
+Theorem gen_generate_qoperation_depolarized_povm_eq : forall n p vs,
+  gen_generate_qoperation_depolarized_povm F n p vs = if rate_ok F p then Some (depol_povm F n p vs) else None.
+Proof. intros. unfold gen_generate_qoperation_depolarized_povm. rewrite gen_get_depolarizing_channel_eq. destruct (rate_ok F p); reflexivity. Qed.
+Theorem gen_generate_qoperation_depolarized_gate_eq : forall n p HS,
+  gen_generate_qoperation_depolarized_gate F n p HS = if rate_ok F p then Some (depol_gate F n p HS) else None.
+Proof. intros. unfold gen_generate_qoperation_depolarized_gate. rewrite gen_get_depolarizing_channel_eq. destruct (rate_ok F p); reflexivity. Qed.
+Theorem gen_generate_qoperation_depolarized_mprocess_eq : forall n p HSs,
+  gen_generate_qoperation_depolarized_mprocess F n p HSs = if rate_ok F p then Some (depol_mprocess F n p HSs) else None.
+Proof. intros. unfold gen_generate_qoperation_depolarized_mprocess. rewrite gen_get_depolarizing_channel_eq. destruct (rate_ok F p); reflexivity. Qed.
+Theorem gen_generate_qoperation_depolarized_other_raises : forall n p v, gen_generate_qoperation_depolarized_other F n p v = None.
+Proof. intros. unfold gen_generate_qoperation_depolarized_other. rewrite gen_get_depolarizing_channel_eq. destruct (rate_ok F p); reflexivity. Qed.
+
+(* transported: what the translated generation setting returns for a gate IS the stated mixture (any HS matrix: non-unital,
+   not trace preserving, not symmetric), and for a state likewise *)
+Theorem gen_DepolarizedSetting_generate_gate_is_mixture : forall p HS n, rate_ok F p = true ->
+  exists HS', gen_DepolarizedSetting_generate_gate F p HS n = Some HS' /\ forall a b, (a < n)%nat -> HS' a b = mix_hs F p HS a b.
+Proof. intros p HS n H. rewrite gen_DepolarizedSetting_generate_gate_eq, H. eexists. split; [reflexivity|].
+  intros a b Ha. now apply depol_gate_is_mixture. Qed.
+Theorem gen_DepolarizedSetting_generate_state_is_mixture : forall p v n, rate_ok F p = true ->
+  exists v', gen_DepolarizedSetting_generate_state F p v n = Some v' /\ forall a, (a < n)%nat -> v' a = mix_vec F p v a.
+Proof. intros p v n H. rewrite gen_DepolarizedSetting_generate_state_eq, H. eexists. split; [reflexivity|].
+  intros a Ha. now apply depol_state_is_mixture. Qed.
+End DepolEquiv.
+
+Print Assumptions gen_get_depolarizing_channel_eq.
+Print Assumptions gen_DepolarizedSetting_init_eq.
+Print Assumptions gen_DepolarizedSetting_generate_state_eq.
+Print Assumptions gen_DepolarizedSetting_generate_povm_eq.
+Print Assumptions gen_DepolarizedSetting_generate_gate_eq.
+Print Assumptions gen_DepolarizedSetting_generate_mprocess_eq.
+Print Assumptions gen_generate_qoperation_depolarized_state_eq.
+Print Assumptions gen_generate_qoperation_depolarized_povm_eq.
+Print Assumptions gen_generate_qoperation_depolarized_gate_eq.
+Print Assumptions gen_generate_qoperation_depolarized_mprocess_eq.
+Print Assumptions gen_generate_qoperation_depolarized_other_raises.
+Print Assumptions gen_DepolarizedSetting_generate_gate_is_mixture.
+Print Assumptions gen_DepolarizedSetting_generate_state_is_mixture.
+
 (* ==================================================================== stream dataflow of the single-setting entry point *)
 Section StreamEquiv.
 Variable origin : Z * list nat * nat.
@@ -206,3 +290,31 @@ Proof. intros. rewrite gen_execute_simulation_keys. apply single_keys_distinct. 
 Print Assumptions gen_tomo_methods_agree.
 Print Assumptions gen_execute_simulation_keys.
 Print Assumptions gen_execute_simulation_keys_distinct.
+
+(* ==================================================================== spawn structure of the flow entry point *)
+Lemma combine_seq_from {A} (d : A) (l : list A) : forall a,
+  combine (seq a (length l)) l = map (fun i => (i, nth (i - a) l d)) (seq a (length l)).
+Proof. induction l as [|x t IH]; intros a; [reflexivity|]. cbn [length seq combine map]. rewrite Nat.sub_diag. cbn [nth]. f_equal.
+  rewrite IH. apply map_ext_in. intros i Hi. apply in_seq in Hi. f_equal.
+  replace (i - a)%nat with (S (i - S a)) by lia. reflexivity. Qed.
+Lemma combine_seq_map {A} (l : list A) (d : A) : combine (seq 0 (length l)) l = map (fun i => (i, nth i l d)) (seq 0 (length l)).
+Proof. rewrite (combine_seq_from d l 0). apply map_ext. intros i. now rewrite Nat.sub_0_r. Qed.
+
+(* sample i runs on the i-th spawned child; results come back concatenated in sample order *)
+Theorem gen_test_setting_unit_spec : forall (R : Type) (task : nat -> key -> list R) seed n,
+  gen_execute_simulation_test_setting_unit R task seed n = concat (map (fun i => task i (KSeed seed [i] 0)) (seq 0 n)).
+Proof. intros R task seed n. unfold gen_execute_simulation_test_setting_unit, py_parallel_enumerate, py_spawn_streams. cbv zeta. f_equal.
+  rewrite (combine_seq_map _ (KAmbient 0)), map_map. unfold spawn. rewrite map_length, seq_length.
+  apply map_ext_in. intros i Hi. apply in_seq in Hi. cbn [fst snd]. f_equal.
+  rewrite (nth_indep _ (KAmbient 0) (KSeed seed ([] ++ [0]) 0)) by (rewrite map_length, seq_length; lia).
+  rewrite (map_nth (fun j => KSeed seed ([] ++ [j]) 0)), seq_nth by lia. reflexivity. Qed.
+
+(* ... and that child is the stream the dataflow model assigns to the objects of sample i (any noise configuration whose
+   true object takes a stream): same root, same spawn path *)
+Theorem gen_test_setting_unit_streams_are_model_keys : forall c s, f_true_seeded c = true ->
+  qop_key c s 0 = GKey (nth s (py_spawn_streams (f_seed_qop c) (S s)) (KAmbient 0)).
+Proof. intros c s H. unfold qop_key, seeded_at, py_spawn_streams. rewrite H. cbn [seq map count_true filter length].
+  rewrite spawn_nth by lia. reflexivity. Qed.
+
+Print Assumptions gen_test_setting_unit_spec.
+Print Assumptions gen_test_setting_unit_streams_are_model_keys.
